@@ -12,7 +12,7 @@ RULE = ("cdist(U,U) of a whole universe in one call for every weight triple of t
 ASSUMPTIONS = ["long strings are covered as a boundary family (lengths 254..400 x 3 shapes), not all strings of that length",
                "weights*length kept below 2^24 (float32 exactness of the generic scorer path is not relied on above that)",
                "rapidfuzz cdist workers=-1 answered with one thread in the bulk spaces; free-running-threads space uses the untouched function"]
-REQUIRED_CLASSES = {"all": ["asymmetric-ins-del", "long-string>255", "condensed-layout", "kwargs-forwarded", "free-running-threads", "several-metric-objects-alive", "falsy-metric-object", "extreme-aspect-ratio"]}
+REQUIRED_CLASSES = {"all": ["asymmetric-ins-del", "long-string>255", "condensed-layout", "kwargs-forwarded", "free-running-threads", "several-metric-objects-alive", "falsy-metric-object", "extreme-aspect-ratio", "none-and-falsy-option-values"]}
 MIN_OUTCOMES = 10
 SINGLE_THREAD_RAPIDFUZZ = True
 
@@ -258,6 +258,22 @@ def check_case(case, acc):
             acc.fail("functional-pdist/kwargs-to-var-keyword-metric", case, exp, v)
             return
         acc.ok()
+        # option values that are None / 0 / False / '' are values like any other: forwarded as given, not replaced by the metric's defaults
+        def metric_cap(a, b, cap=5, offset=1, flag=True, tag="x"):
+            base = code[a] * 64 + code[b]
+            if cap is not None:
+                base = min(base, cap)
+            return base + offset + (1000 if flag else 0) + (100 if tag else 0)
+        acc.cls("none-and-falsy-option-values")
+        for kw in (dict(cap=None), dict(offset=0), dict(flag=False), dict(tag=""), dict(cap=None, offset=0, flag=False, tag="")):
+            v = acc.call(pyrepseq.pdist, X, metric=metric_cap, dtype=np.int64, **kw)
+            exp = [metric_cap(X[i], X[j], **kw) for i in range(m_) for j in range(i + 1, m_)]
+            c = acc.call(pyrepseq.cdist, X, X[:2], metric=metric_cap, dtype=np.int64, **kw)
+            expc = [[metric_cap(a, b, **kw) for b in X[:2]] for a in X]
+            if raised(v) or v.tolist() != exp or raised(c) or c.tolist() != expc:
+                acc.fail("functional-pdist/none-or-falsy-option-value", case, exp, v, note=str(kw))
+                return
+            acc.ok()
         # a metric given as a callable *object* whose truth value is False (e.g. a memoising metric with an empty cache and __len__)
         class CachingMetric:
             def __init__(self):
